@@ -699,6 +699,165 @@ def _replay_projection(s_, r_, constant=False):
     return rep
 
 
+DEFN = "cogent3/recalculation/definition.py"
+CLOSE = z3.Function("ALLCLOSE", z3.RealSort(), z3.RealSort(), z3.BoolSort())
+
+
+def _handover_frame_ok(node):
+    """syntactic frame of the hand-over loop: ``for <a>, <b> in zip(<x>, self.uniq)`` whose body stores only to local
+    names and to attributes of <b>, and has no break / continue / return -- then each (calculator value, setting) pair is
+    processed independently of the others and a proof for one pair is a proof for every number of pairs"""
+    import ast
+    loops = [n for n in ast.walk(node) if isinstance(n, (ast.For, ast.While))]
+    if len(loops) != 1 or not isinstance(loops[0], ast.For):
+        return "expected exactly one for-loop"
+    lp = loops[0]
+    if not (isinstance(lp.iter, ast.Call) and getattr(lp.iter.func, "id", None) == "zip" and len(lp.iter.args) == 2
+            and ast.unparse(lp.iter.args[1]) == "self.uniq" and isinstance(lp.target, ast.Tuple) and len(lp.target.elts) == 2
+            and all(isinstance(e, ast.Name) for e in lp.target.elts)):
+        return "loop is not `for a, b in zip(values, self.uniq)`"
+    setting = lp.target.elts[1].id
+    for n in ast.walk(lp):
+        if isinstance(n, (ast.Break, ast.Continue, ast.Return, ast.Global, ast.Nonlocal, ast.Delete)):
+            return f"{type(n).__name__} in the loop body"
+        if isinstance(n, (ast.Attribute, ast.Subscript)) and isinstance(n.ctx, ast.Store):
+            if not (isinstance(n, ast.Attribute) and isinstance(n.value, ast.Name) and n.value.id == setting):
+                return f"store to {ast.unparse(n)}"
+        if isinstance(n, ast.Call) and isinstance(n.func, ast.Attribute) and isinstance(n.func.value, ast.Name) \
+                and n.func.value.id in ("self", "calc"):
+            return f"call of {ast.unparse(n.func)} inside the loop"
+    for st in node.body:
+        if st is lp or (isinstance(st, ast.Expr) and isinstance(st.value, ast.Constant)):
+            continue
+        if not (isinstance(st, ast.Assign) and len(st.targets) == 1 and isinstance(st.targets[0], ast.Name)):
+            return f"statement outside the loop: {ast.unparse(st)[:60]}"
+    return None
+
+
+def _replay_handover(model):
+    """native: a rate parameter started exactly on an upper bound that exp(log(.)) overshoots, data pushing it outward"""
+    import warnings
+    warnings.filterwarnings("ignore")
+    from cogent3 import get_model, make_aligned_seqs, make_tree
+    data = {"a": "ACGTACGTACGTACGTACGTACGTACGTACGTACGTACGT", "b": "GCGTACATACGCACGTGCGTACGTATGTACGTACGTACGC",
+            "c": "ACATACGTACGTATGTACGTGCGTACGTACGCACGTACGT"}
+    for upper in (10.0, 100.0, 3.0):
+        lf = get_model("HKY85").make_likelihood_function(make_tree(tip_names=list(data)))
+        lf.set_alignment(make_aligned_seqs(data=data, moltype="dna"))
+        lf.set_param_rule("kappa", init=upper, lower=1e-6, upper=upper)
+        start = float(lf.lnL)
+        try:
+            lf.optimise(local=True, show_progress=False, max_evaluations=60, limit_action="ignore")
+        except Exception as e:
+            return {"failed": True, "witness": {"kappa upper": upper}, "description": f"optimise raises {type(e).__name__}: {e}"}
+        end, k = float(lf.lnL), float(lf.get_param_value("kappa"))
+        if end < start - 1e-6 or not 1e-6 <= k <= upper * (1 + 1e-9):
+            return {"failed": True, "witness": {"model": "HKY85", "kappa init = upper": upper, "alignment": data},
+                    "description": f"HKY85, kappa started on its upper bound {upper}: lnL {start!r} -> {end!r}, kappa = {k!r}"}
+    return {"failed": False, "description": "kappa started on upper bounds 10, 100, 3: lnL not lowered, kappa within bounds"}
+
+
+def run_handover(chk):
+    """_InputDefn.update_from_calculator -- the step that copies the optimiser's final values from the calculator back
+    into the parameter settings (ParameterController.optimise runs it in its ``finally``).  The real function object is
+    executed on a symbolic calculator value and symbolic bounds (operator overloading) for one (value, setting) pair in
+    each of the 8 shapes {constant, free} x {lower None / given} x {upper None / given}; the frame check above extends
+    the result to any number of pairs.  Postcondition (from the property: fitted values lie within their declared
+    bounds, and the function hands over what the optimiser found): the setting receives the calculator value when that
+    lies within the bounds, otherwise the bound that was crossed -- and only when numpy.allclose says the overshoot is
+    rounding; anything else raises ParameterOutOfBoundsError and writes nothing."""
+    import types
+
+    import numpy
+
+    from cogent3.recalculation import definition as D
+    from pyvc import concolic as C
+    fn = "recalculation.definition._InputDefn.update_from_calculator"
+    chk.function(DEFN, "_InputDefn.update_from_calculator", "P")
+    node = extract.get(DEFN, "_InputDefn.update_from_calculator")
+    bad = _handover_frame_ok(node)
+    if bad:
+        chk.undecided.append(f"{fn}: frame of the hand-over loop not recognised ({bad}): one-pair proof does not extend to all pairs")
+        return
+    chk.discharged_inline(f"{fn}/frame.pairs-are-independent", "frame", function=fn, backend="syntactic check of the loop (ast)")
+    chk.assume("C16 hand-over: numpy.allclose(a, b) is an uninterpreted predicate ALLCLOSE(a, b) (trusted numpy contract); "
+               "settings in self.uniq are distinct objects; a bound equal to 0 is read by the code as 'no bound' and is excluded "
+               "by precondition (no transformed parameter has a zero bound, untransformed ones do not overshoot)")
+    real = D._InputDefn.update_from_calculator
+    o, lo, hi = z3.Reals("calc_value lower upper")
+
+    class Setting:
+        def __init__(self, const, has_lo, has_hi):
+            self.is_constant = const
+            self.lower = C.Sym(lo) if has_lo else None
+            self.upper = C.Sym(hi) if has_hi else None
+            self.value = "unwritten"
+
+    def close(a, b, *args, **kw):
+        return C.SymBool(CLOSE(C.term(a), C.term(b)))
+    n_paths = 0
+    for const in (False, True):
+        for has_lo in (False, True):
+            for has_hi in (False, True):
+                cfg = f"cfg=({'constant' if const else 'free'},lower={'given' if has_lo else 'None'},upper={'given' if has_hi else 'None'})"
+                pre = ([lo != 0] if has_lo else []) + ([hi != 0] if has_hi else []) + ([lo <= hi] if has_lo and has_hi else [])
+                box = {}
+
+                def call():
+                    st = Setting(const, has_lo, has_hi)
+                    box["st"] = st
+                    me = types.SimpleNamespace(uniq=[st], name="par")
+                    calc = types.SimpleNamespace(get_current_cell_values_for_defn=lambda d: [C.Sym(o)])
+                    saved = numpy.allclose
+                    numpy.allclose = close
+                    try:
+                        real(me, calc)
+                    finally:
+                        numpy.allclose = saved
+                    return st.value
+                try:
+                    paths = C.explore(call, pre)
+                except Exception as e:
+                    chk.undecided.append(f"{fn}/{cfg}: the real code cannot be evaluated on symbolic reals ({type(e).__name__}: {e})")
+                    continue
+                chk.obligation(f"{fn}/{cfg}/cover", "cover", cover_thunk(pre + [o == 1]), function=fn)
+                below = z3.And(z3.BoolVal(has_lo), o < lo)
+                above = z3.And(z3.BoolVal(has_hi), o > hi)
+                for k_, pth in enumerate(paths):
+                    n_paths += 1
+                    base = f"{fn}/{cfg}/path={k_}"
+                    if pth.outcome == "raise":
+                        is_oob = str(pth.value).startswith("ParameterOutOfBoundsError")
+                        # a refusal is allowed only for a free setting whose value is outside its bounds and not merely rounding
+                        goal = z3.And(z3.BoolVal(is_oob and not const),
+                                      z3.Or(z3.And(below, z3.Not(CLOSE(o, lo))), z3.And(above, z3.Not(CLOSE(o, hi)))))
+                        chk.obligation(f"{base}/post.raises-only-for-a-real-bound-violation", "post", smt_thunk(pre + pth.pc, goal, 20),
+                                       function=fn, key=f"C16/{fn}/post.raise", replayer=_replay_handover)
+                        continue
+                    v = pth.value
+                    try:
+                        vt = C.term(v)
+                    except TypeError:
+                        vt = None
+                    if vt is None:        # the setting was not written, or received something that is not a number
+                        chk.obligation(f"{base}/post.setting-gets-the-value-or-the-crossed-bound", "post",
+                                       lambda v=v: ("refuted", "concolic", 0.0, {}, f"the setting receives {v!r} on a feasible path"),
+                                       function=fn, key=f"C16/{fn}/post.value", replayer=_replay_handover)
+                        continue
+                    else:
+                        if const:
+                            goal = vt == o
+                        else:
+                            goal = z3.And(z3.Implies(below, z3.And(vt == lo, CLOSE(o, lo))),
+                                          z3.Implies(above, z3.And(vt == hi, CLOSE(o, hi))),
+                                          z3.Implies(z3.Not(z3.Or(below, above)), vt == o),
+                                          z3.Implies(z3.BoolVal(has_lo), vt >= lo), z3.Implies(z3.BoolVal(has_hi), vt <= hi))
+                    chk.obligation(f"{base}/post.setting-gets-the-value-or-the-crossed-bound", "post", smt_thunk(pre + pth.pc, goal, 20),
+                                   function=fn, key=f"C16/{fn}/post.value", replayer=_replay_handover)
+    if n_paths == 0:
+        chk.undecided.append(f"{fn}: no path explored")
+
+
 def run(chk):
     for q in ("limited_use", "bounded_function", "bounds_exception_catching_function", "maximise"):
         chk.function(OPT, q, "P")
@@ -710,6 +869,7 @@ def run(chk):
         chk.guard(run_maximise, fallback=[_replay_maximise])
         chk.guard(run_pc_optimise)
         chk.guard(run_projection)
+        chk.guard(run_handover, fallback=[_replay_handover])
         chk.discharge()
     chk.assume("float is modelled as the extended reals [-INF, INF]; NaN is excluded by precondition; rounding is not modelled")
     chk.assume("the optimisers (Powell, simulated annealing) are arbitrary callers of the wrapped function: only the "
